@@ -118,6 +118,11 @@ def finish(res, seed=0, frozen_undecided=None):
     cov["undecided_frozen"] = [{"rule": u["rule"], "function": u["function"], "construct": u["construct"]} for u in und]
     if res.notes:
         cov["notes"] = res.notes
+    try:
+        from . import ir as _ir
+        cov["analysed"] = list(_ir.PROGRAM_STATS)
+    except Exception:
+        pass
     ev = {"property_id": res.pid, "tier": res.tier, "seed": seed, "level": res.level, "coverage": cov,
           "assumptions": res.assumptions, "wall_s": round(time.time() - res.t0, 2),
           "violations": len(new_viol)}
